@@ -23,7 +23,9 @@ theorem parseTag_maxval' (ds : List Char) (n : Nat) (name : String) (h : parseUi
   unfold parseTag
   rw [splitOn_no_sep _ _ hc]
   simp only [List.foldl, tagClause_maxval none ds n h, tagFinish]
-  simp [show ¬ byteCount n = 0 by omega, show ¬ 8 < byteCount n by omega]
+  have hf := (finalChecks_plain true (byteCount n) 0 0 0).2 ⟨hr.1, hr.2, Nat.le_refl 0, rfl⟩
+  simp only [Int.ofNat_eq_natCast, Int.natCast_zero] at hf
+  simp [hf]
 
 theorem parseTag_size' (ds : List Char) (n : Nat) (name : String) (h : parseUint 32 ds = some n) (h1 : 1 ≤ n) (h8 : n ≤ 8) :
     parseTag ("size:".toList ++ ds) name = .ok (some { count := n, countSet := true, name := name }) := by
@@ -31,7 +33,9 @@ theorem parseTag_size' (ds : List Char) (n : Nat) (name : String) (h : parseUint
   unfold parseTag
   rw [splitOn_no_sep _ _ hc]
   simp only [List.foldl, tagClause_size none ds n h, tagFinish]
-  simp [show ¬ n = 0 by omega, show ¬ 8 < n by omega]
+  have hf := (finalChecks_plain true n 0 0 0).2 ⟨h1, h8, Nat.le_refl 0, rfl⟩
+  simp only [Int.ofNat_eq_natCast, Int.natCast_zero] at hf
+  simp [hf]
 
 theorem parseTag_minmax' (da db : List Char) (a b : Nat) (name : String)
     (ha : parseUint 64 da = some a) (hb : parseUint 64 db = some b) (hab : a ≤ b) :
@@ -43,7 +47,33 @@ theorem parseTag_minmax' (da db : List Char) (a b : Nat) (name : String)
   unfold parseTag
   rw [splitOn_append _ _ _ hca, splitOn_no_sep _ _ hcb]
   simp only [List.foldl, tagClause_minlen none da a ha, tagClause_maxlen _ db b hb, tagFinish]
-  simp [hab, show ¬ byteCount b = 0 by omega, show ¬ 8 < byteCount b by omega, show ¬ b < a by omega]
+  have hf := (finalChecks_plain true (byteCount b) a b 0).2 ⟨hr.1, hr.2, hab, rfl⟩
+  simp only [Int.ofNat_eq_natCast, Int.natCast_zero] at hf
+  simp [hf]
+
+theorem parseTag_size_bad' (ds : List Char) (n : Nat) (name : String) (h : parseUint 32 ds = some n) (hb : n < 1 ∨ 8 < n) :
+    parseTag ("size:".toList ++ ds) name = .error .structural := by
+  have hc : ',' ∉ "size:".toList ++ ds := no_comma_kw _ _ (by decide) (parseUint_no_comma _ _ _ h)
+  unfold parseTag
+  rw [splitOn_no_sep _ _ hc]
+  simp only [List.foldl, tagClause_size none ds n h, tagFinish]
+  have hf : ¬ (Gen.tagFinalChecks true true (Int.ofNat n) (Int.ofNat 0) (Int.ofNat 0) (Int.ofNat 0) = true) := by
+    rw [finalChecks_plain]; omega
+  simp at hf ⊢
+  simp [hf]
+
+theorem parseTag_minmax_inverted' (da db : List Char) (a b : Nat) (name : String)
+    (ha : parseUint 64 da = some a) (hb : parseUint 64 db = some b) (hab : b < a) :
+    parseTag ("minlen:".toList ++ da ++ ',' :: ("maxlen:".toList ++ db)) name = .error .structural := by
+  have hca : ',' ∉ "minlen:".toList ++ da := no_comma_kw _ _ (by decide) (parseUint_no_comma _ _ _ ha)
+  have hcb : ',' ∉ "maxlen:".toList ++ db := no_comma_kw _ _ (by decide) (parseUint_no_comma _ _ _ hb)
+  unfold parseTag
+  rw [splitOn_append _ _ _ hca, splitOn_no_sep _ _ hcb]
+  simp only [List.foldl, tagClause_minlen none da a ha, tagClause_maxlen _ db b hb, tagFinish]
+  have hf : ¬ (Gen.tagFinalChecks true true (Int.ofNat (byteCount b)) (Int.ofNat a) (Int.ofNat b) (Int.ofNat 0) = true) := by
+    rw [finalChecks_plain]; omega
+  simp at hf ⊢
+  simp [hf]
 
 /-- A documented size clause parses to an info without selector whose width is 1…8 bytes. -/
 theorem SizeTag.parse {t : List Char} (h : SizeTag t) (name : String) :
@@ -74,7 +104,9 @@ theorem parseTag_selector_val' (s dv : List Char) (v : Nat) (name : String) (hs 
   unfold parseTag
   rw [splitOn_append _ _ _ hca, splitOn_no_sep _ _ hcb]
   simp only [List.foldl, tagClause_selector none s, tagClause_val _ dv v hv, tagFinish]
-  simp [hne]
+  have hf := finalChecks_selector 0 0 v
+  simp only [Int.ofNat_eq_natCast, Int.natCast_zero] at hf
+  simp [hne, hf]
 
 /-- a defined type whose underlying type is (eventually) `uint64`: `tls.Enum` and everything declared from it -/
 def GoTy.enumKind : GoTy → Bool
@@ -107,17 +139,48 @@ theorem resolveFields_variant (name : String) (tag : List Char) (e : GoTy) (rest
   rw [resolveFields, hp]
   simp [hsel]
 
+/-- strip the `type X T` wrappers: the type reflection's `Kind()` looks at -/
+def GoTy.core : GoTy → GoTy
+  | .named t => t.core
+  | .u8 => .u8 | .u16 => .u16 | .u24 => .u24 | .u32 => .u32 | .u64 => .u64
+  | .slice e => .slice e
+  | .array n e => .array n e
+  | .ptr e => .ptr e
+  | .struct fs => .struct fs
+
+/-- array, slice or struct: shapes for which being a defined type makes no difference to the codec -/
+def GoTy.composite : GoTy → Bool
+  | .slice _ => true
+  | .array _ _ => true
+  | .struct _ => true
+  | _ => false
+
+/-- `ct.CTExtensions`, `ct.SHA256Hash`, `ct.LogID`, `ct.DigitallySigned` …: a defined type whose underlying type is a
+slice, array or struct is coded exactly like the underlying type. -/
+theorem resolve_core : ∀ (t : GoTy), t.core.composite = true → ∀ (nm : Bool) (info : Option FieldInfo),
+    resolve nm t info = resolve true t.core info
+  | .named t', h, nm, info => by
+    simp only [resolve, GoTy.core]
+    exact resolve_core t' (by simpa [GoTy.core] using h) true info
+  | .slice e, _, nm, info => by cases info <;> simp [resolve, GoTy.core]
+  | .array n e, _, nm, info => by simp [resolve, GoTy.core]
+  | .struct fs, _, nm, info => by simp [resolve, GoTy.core]
+  | .u8, h, _, _ | .u16, h, _, _ | .u24, h, _, _ | .u32, h, _, _ | .u64, h, _, _ | .ptr _, h, _, _ => by
+    simp [GoTy.core, GoTy.composite] at h
+
 mutual
-/-- Shapes of the documented mapping table that need no size information. -/
+/-- Shapes of the documented mapping table that need no size information (defined types included: `t.core` is what
+reflection's `Kind()` sees; the five fixed-width integers are recognised by identity, so they must not be wrapped). -/
 inductive Sup : GoTy → Prop where
   | u8 : Sup .u8
   | u16 : Sup .u16
   | u24 : Sup .u24
   | u32 : Sup .u32
   | u64 : Sup .u64
-  | arr (n : Nat) (e : GoTy) (h : e.isU8 = true) : Sup (.array n e)
-  | struct (fs : GoFields) (h : SupF fs) : Sup (.struct fs)
-  | namedStruct (fs : GoFields) (h : SupF fs) : Sup (.named (.struct fs))
+  /-- `opaque[N]` — `[N]byte` or a defined type of it (`ct.SHA256Hash`) -/
+  | arr (t : GoTy) (n : Nat) (e : GoTy) (hc : t.core = .array n e) (h : e.isU8 = true) : Sup t
+  /-- `struct { }` — possibly a defined type, possibly a defined type of a defined type (`ct.DigitallySigned`) -/
+  | struct (t : GoTy) (fs : GoFields) (hc : t.core = .struct fs) (h : SupF fs) : Sup t
 /-- Struct fields of the documented mapping table. -/
 inductive SupF : GoFields → Prop where
   | nil : SupF .nil
@@ -127,53 +190,95 @@ inductive SupF : GoFields → Prop where
   /-- `enum` — `tls.Enum` (or a type declared from it) with `size:S` / `maxval:N` -/
   | enum (name : String) (tag : List Char) (t : GoTy) (rest : GoFields) (ht : t.enumKind = true) (htag : SizeTag tag)
       (hr : SupF rest) : SupF (.cons name tag t rest)
-  /-- `opaque<N..M>` — `[]byte` with `minlen:N,maxlen:M` -/
-  | bytes (name : String) (tag : List Char) (e : GoTy) (rest : GoFields) (he : e.isU8 = true) (htag : SizeTag tag)
-      (hr : SupF rest) : SupF (.cons name tag (.slice e) rest)
+  /-- `opaque<N..M>` — `[]byte` (or a defined type of it: `ct.CTExtensions`) with `minlen:N,maxlen:M` -/
+  | bytes (name : String) (tag : List Char) (t e : GoTy) (rest : GoFields) (hc : t.core = .slice e) (he : e.isU8 = true)
+      (htag : SizeTag tag) (hr : SupF rest) : SupF (.cons name tag t rest)
   /-- `Type<N..M>` — `[]Type` whose elements are themselves in the table and occupy at least one byte -/
-  | vec (name : String) (tag : List Char) (e : GoTy) (rest : GoFields) (he : e.isU8 = false) (hs : Sup e)
-      (hp : (resolve false e none).pos = true) (htag : SizeTag tag) (hr : SupF rest) : SupF (.cons name tag (.slice e) rest)
+  | vec (name : String) (tag : List Char) (t e : GoTy) (rest : GoFields) (hc : t.core = .slice e) (he : e.isU8 = false)
+      (hs : Sup e) (hp : (resolve false e none).pos = true) (htag : SizeTag tag) (hr : SupF rest) : SupF (.cons name tag t rest)
   /-- `select(T) { case e1: Type }` — `*Type` with `selector:Field,val:e1` -/
   | variant (name : String) (s dv : List Char) (v : Nat) (e : GoTy) (rest : GoFields) (hs : ',' ∉ s)
       (hne : String.ofList s ≠ "") (hv : parseUint 64 dv = some v) (he : Sup e) (hr : SupF rest) :
       SupF (.cons name ("selector:".toList ++ s ++ ',' :: ("val:".toList ++ dv)) (.ptr e) rest)
+  /-- the same with a defined pointer type (`type P *Type`) -/
+  | variantNamed (name : String) (s dv : List Char) (v : Nat) (e : GoTy) (rest : GoFields) (hs : ',' ∉ s)
+      (hne : String.ofList s ≠ "") (hv : parseUint 64 dv = some v) (he : Sup e) (hr : SupF rest) :
+      SupF (.cons name ("selector:".toList ++ s ++ ',' :: ("val:".toList ++ dv)) (.named (.ptr e)) rest)
 end
 
+theorem resolveFields_variantNamed (name : String) (tag : List Char) (e : GoTy) (rest : GoFields) (i : FieldInfo)
+    (hp : parseTag tag name = .ok (some i)) (hsel : i.selector ≠ "") :
+    resolveFields (.cons name tag (.named (.ptr e)) rest) = .variant name i.selector i.val (resolve false e (some i)) (resolveFields rest) := by
+  rw [resolveFields, hp]
+  simp [hsel]
+
 mutual
-theorem Sup.wf : ∀ {g : GoTy}, Sup g → ∀ (info : Option FieldInfo), (resolve false g info).wf = true
-  | _, .u8, _ => by simp [resolve, Ty.wf]
-  | _, .u16, _ => by simp [resolve, Ty.wf]
-  | _, .u24, _ => by simp [resolve, Ty.wf]
-  | _, .u32, _ => by simp [resolve, Ty.wf]
-  | _, .u64, _ => by simp [resolve, Ty.wf]
-  | _, .arr n e h, _ => by simp [resolve, h, Ty.wf]
-  | _, .struct fs h, _ => by simp only [resolve, Ty.wf]; exact SupF.wf h
-  | _, .namedStruct fs h, _ => by simp only [resolve, Ty.wf]; exact SupF.wf h
+theorem Sup.wf : ∀ {g : GoTy}, Sup g → ∀ (nm : Bool) (info : Option FieldInfo), (resolve nm g info).wf = true ∨ nm = true ∧ g.core.composite = false
+  | _, .u8, nm, _ => by cases nm <;> simp [resolve, Ty.wf, GoTy.core, GoTy.composite]
+  | _, .u16, nm, _ => by cases nm <;> simp [resolve, Ty.wf, GoTy.core, GoTy.composite]
+  | _, .u24, nm, _ => by cases nm <;> simp [resolve, Ty.wf, GoTy.core, GoTy.composite]
+  | _, .u32, nm, _ => by cases nm <;> simp [resolve, Ty.wf, GoTy.core, GoTy.composite]
+  | _, .u64, nm, _ => by cases nm <;> simp [resolve, Ty.wf, GoTy.core, GoTy.composite]
+  | t, .arr _ n e hc h, nm, info => by
+    left
+    rw [resolve_core t (by simp [hc, GoTy.composite]) nm info, hc]
+    simp [resolve, h, Ty.wf]
+  | t, .struct _ fs hc h, nm, info => by
+    left
+    rw [resolve_core t (by simp [hc, GoTy.composite]) nm info, hc]
+    simp only [resolve, Ty.wf]; exact SupF.wf h
 theorem SupF.wf : ∀ {fs : GoFields}, SupF fs → (resolveFields fs).wf = true
   | _, .nil => by simp [resolveFields, Fields.wf]
   | _, .plain name tag t rest hn ht htag hr => by
     have h1 := SupF.wf hr
+    have hwf : ∀ info, (resolve false t info).wf = true := fun info => by
+      rcases Sup.wf ht false info with h | ⟨h, _⟩
+      · exact h
+      · cases h
     rcases htag with rfl | htag
     · rw [resolveFields_plain name [] t rest _ (parseTag_empty' name hn) rfl]
-      simp [Fields.wf, Sup.wf ht, h1]
+      simp [Fields.wf, hwf, h1]
     · obtain ⟨i, hp, hsel, _⟩ := htag.parse name
       rw [resolveFields_plain name tag t rest i hp hsel]
-      simp [Fields.wf, Sup.wf ht, h1]
+      simp [Fields.wf, hwf, h1]
   | _, .enum name tag t rest ht htag hr => by
     obtain ⟨i, hp, hsel, hw⟩ := htag.parse name
     rw [resolveFields_plain name tag t rest i hp hsel, resolve_enumKind t ht]
     simp [Fields.wf, Ty.wf, hw, SupF.wf hr]
-  | _, .bytes name tag e rest he htag hr => by
+  | _, .bytes name tag t e rest hc he htag hr => by
     obtain ⟨i, hp, hsel, hw⟩ := htag.parse name
-    rw [resolveFields_plain name tag _ rest i hp hsel]
+    rw [resolveFields_plain name tag _ rest i hp hsel, resolve_core t (by simp [hc, GoTy.composite]), hc]
     simp [resolve, he, Fields.wf, Ty.wf, hw, SupF.wf hr]
-  | _, .vec name tag e rest he hs hpos htag hr => by
+  | _, .vec name tag t e rest hc he hs hpos htag hr => by
     obtain ⟨i, hp, hsel, hw⟩ := htag.parse name
-    rw [resolveFields_plain name tag _ rest i hp hsel]
-    simp [resolve, he, Fields.wf, Ty.wf, hw, SupF.wf hr, Sup.wf hs, hpos]
+    have hwf : (resolve false e none).wf = true := by
+      rcases Sup.wf hs false none with h | ⟨h, _⟩
+      · exact h
+      · cases h
+    rw [resolveFields_plain name tag _ rest i hp hsel, resolve_core t (by simp [hc, GoTy.composite]), hc]
+    simp [resolve, he, Fields.wf, Ty.wf, hw, SupF.wf hr, hwf, hpos]
   | _, .variant name s dv v e rest hs hne hv he hr => by
+    have hwf : ∀ info, (resolve false e info).wf = true := fun info => by
+      rcases Sup.wf he false info with h | ⟨h, _⟩
+      · exact h
+      · cases h
     rw [resolveFields_variant name _ e rest _ (parseTag_selector_val' s dv v name hs hne hv) hne]
-    simp [Fields.wf, Sup.wf he, SupF.wf hr]
+    simp [Fields.wf, hwf, SupF.wf hr]
+  | _, .variantNamed name s dv v e rest hs hne hv he hr => by
+    have hwf : ∀ info, (resolve false e info).wf = true := fun info => by
+      rcases Sup.wf he false info with h | ⟨h, _⟩
+      · exact h
+      · cases h
+    rw [resolveFields_variantNamed name _ e rest _ (parseTag_selector_val' s dv v name hs hne hv) hne]
+    simp [Fields.wf, hwf, SupF.wf hr]
 end
+
+/-- what `tls.Marshal(v)` / `tls.Unmarshal(b, &v)` see for a supported shape is well-formed -/
+theorem Sup.wf_top {g : GoTy} (h : Sup g) (info : Option FieldInfo) : (resolve false g info).wf = true := by
+  rcases h.wf false info with h | ⟨h, _⟩
+  · exact h
+  · cases h
+
+theorem SizeTag.ofEq {t t' : List Char} (h : t = t') (ht : SizeTag t') : SizeTag t := h ▸ ht
 
 end Tls
